@@ -355,11 +355,12 @@ func pkgOfFile(e *Engine, file string) string {
 
 // usesAxiomPkg: axioms of a package apply to functions of that package and of packages whose contracts mention its spec functions.
 func (x *Exec) usesAxiomPkg(c *Clause) bool {
-	ap := pkgOfFile(x.e, c.File)
-	if ap == x.pkg {
-		return true
+	// axioms and lemmas are scoped to the contract file that states them: they apply to the functions whose
+	// contracts live in the same file (keeps unrelated arithmetic facts out of the queries)
+	if x.fc != nil && x.fc.File != "" {
+		return c.File == x.fc.File
 	}
-	return false
+	return pkgOfFile(x.e, c.File) == x.pkg
 }
 
 // ---- blocks --------------------------------------------------------------
@@ -525,6 +526,7 @@ func (x *Exec) havocLoop(p *Path, fr *FrameState, l *Loop) {
 		}
 	}
 	all := false
+	allStrong := false // an oxy function with `modifies everything` is called: not even lock-protected state survives
 	seen := map[*ssa.Function]bool{}
 	var scan func(fn *ssa.Function, blocks map[*ssa.BasicBlock]bool, top bool)
 	targets := map[string][]string{} // key -> object terms ("" = whole)
@@ -712,8 +714,12 @@ func (x *Exec) havocLoop(p *Path, fr *FrameState, l *Loop) {
 					}
 					if fc := x.e.contractOf(callee); fc != nil {
 						if hasEverything(fc) {
+							allStrong = true
 							all = true
 							continue
+						}
+						if hasExternal(fc) {
+							all = true
 						}
 						for _, k := range x.modKeysOfContract(fc, cc) {
 							addKey(k, "")
@@ -750,9 +756,12 @@ func (x *Exec) havocLoop(p *Path, fr *FrameState, l *Loop) {
 			addKey(elemKey(d.et, lf.Path), obj)
 		}
 	}
-	if all {
+	if allStrong {
+		x.e.havocAll(p)
+	} else if all {
 		x.havocEverything(p)
-	} else {
+	}
+	if !allStrong {
 		keys := make([]string, 0, len(targets))
 		for k := range targets {
 			keys = append(keys, k)
@@ -801,6 +810,17 @@ func innerSort(arr string) string {
 func hasEverything(fc *FuncContract) bool {
 	for _, m := range fc.Modifies {
 		if m == "everything" {
+			return true
+		}
+	}
+	return false
+}
+
+// hasExternal: `modifies external, T...`: the function calls arbitrary code (everything not protected by a lock the
+// caller holds may change) and itself writes only the listed targets of the protected state.
+func hasExternal(fc *FuncContract) bool {
+	for _, m := range fc.Modifies {
+		if m == "external" {
 			return true
 		}
 	}
@@ -915,7 +935,7 @@ func (x *Exec) modKeysOfContract(fc *FuncContract, cc *ssa.CallCommon) []string 
 		}
 	}
 	for _, m := range fc.Modifies {
-		if m == "nothing" || m == "everything" {
+		if m == "nothing" || m == "everything" || m == "external" {
 			continue
 		}
 		e, err := ParseExpr(m)
